@@ -41,6 +41,13 @@ class Check(PropertyCheck):
         bad = [k for k in want if got.get(k) != want[k]]
         if bad:
             raise TranslateError(f"shape changed: {bad}")
+        # the cache-hit branch of _exec_job_main_thread (a hit carrying an ErrorValue rejects the job) belongs to the
+        # scheduler shape recognised by translate/tr_sched.py
+        from translate import tr_sched
+        try:
+            tr_sched.translate(pins=json.loads(jobcheck.PINS_FILE.read_text()))
+        except astutil.TranslateError as e:
+            raise TranslateError(str(e))
         pins = json.loads((VERIF / "translate" / "pins_C04.json").read_text())
         gc_pins = {k: v for k, v in pins.items() if k.startswith("Scheduler._get_cache") or k.startswith("Scheduler._has_valid")}
         try:
@@ -80,8 +87,26 @@ class Check(PropertyCheck):
 
     def oracle(self):
         nb = 0
+        # 0. a failing call made twice in one execution, the second time by another job that starts only after the first
+        #    failure was caught, recorded and finalized (a same-execution replay of a recorded failure must raise too;
+        #    seeded change C12b), with and without the backend cache
+        staged = []
+        for i in range(12 if self.tier == "quick" else 200):
+            X = (f"sx{i}", "raise", f"boom{i % 3}", (), None)
+            fail_sub = X
+            for d in range(self.rng.randint(0, 1)):
+                fail_sub = (f"sw{i}_{d}", "list", 0, (fail_sub,), None)
+            first = (f"sc{i}", self.rng.choice(["catch", "catchany"]), 0, (fail_sub,), None)
+            second = (f"sp{i}", "list", 1, (fail_sub,), None)
+            if self.rng.random() < 0.4:
+                second = (f"sq{i}", "catch", 0, (second,), None) if self.rng.random() < 0.5 else (f"sl{i}", "list", 2, (second, ("sy", "leaf", 1, (), None)), None)
+            spec = (f"ss{i}", "seq", 0, (first, second), None)
+            o = sched.run_program(lambda: vm.call(spec), {}, self.rng, cache=self.rng.random() < 0.7,
+                                  complete_prob=self.rng.choice([0.1, 0.6]))
+            o["spec"] = spec
+            staged.append(o)
         # 1. propagation + failed chain on the runs of the correspondence
-        for out in getattr(self, "runs", []):
+        for out in getattr(self, "runs", []) + staged:
             self.evaluations += 1
             spec = out["spec"]
             try:
@@ -100,9 +125,16 @@ class Check(PropertyCheck):
                 else:
                     tr = out["tracer"]
                     # the failing leaf job and every ancestor must be failed
-                    leafs = [j for j in tr.jobobj if j.task.name == "node" and tr.first_args.get(tr.jobid[j.id])
-                             and tr.first_args[tr.jobid[j.id]][0][0][1] == "raise"
-                             and tr.first_args[tr.jobid[j.id]][0][0][2] == out["error"][1] and tr.status.get(j.id) == 2]
+                    def spec_of(j):
+                        fa = tr.first_args.get(tr.jobid[j.id])
+                        return fa[0][0] if fa and fa[0] else None
+                    failed = [j for j in tr.jobobj if j.task.name == "node" and tr.status.get(j.id) == 2]
+                    kids_failed = {id(j.parent_job) for j in failed if j.parent_job is not None}
+                    # where a chain of failed jobs may end: the task that raised the error, or a job that replayed the
+                    # recorded failure of an equal call of this execution (its children were not created again)
+                    leafs = [j for j in failed if id(j) not in kids_failed and spec_of(j) is not None and (
+                        (spec_of(j)[1] == "raise" and spec_of(j)[2] == out["error"][1])
+                        or any(k is not j and spec_of(k) == spec_of(j) for k in failed))]
                     okchain = False
                     for leaf in leafs:
                         j, good = leaf, True
